@@ -8,7 +8,7 @@ prepare = fblock.prepare
 ENGINE_ONLY_AIDS = ("C11-shared", "C11-shared-assign", "C11-shared-copies", "C11-independent", "C11-clone-shared")
 BOUNDS = {
     "quick": {"block_level": "Clone() of all registered block types on symbolic input (B=1, L=256, 7 s per type): equal bytes, disjoint heap, survives the source", "models": "OB/FO3/SK/SSE/FO4/FO76 API-built models (NiTriShape and BSTriShape families), skinned/unskinned, with collision/extra data/controller", "copies": "copy constructor and copy assignment", "edits_on_copy": "delete vertex, set vertices + rename, delete shape, delete block + sort, SetTriangles/UpdateBounds through the shape object", "destruction_order": "source first / copies first"},
-    "thorough": {"models": "all feature combinations incl. symbolic vertex payload", "copies": "as quick", "edits_on_copy": "as quick", "destruction_order": "both"},
+    "thorough": {"models": "more feature combinations (concrete geometry)", "copies": "as quick", "edits_on_copy": "as quick", "destruction_order": "both"},
 }
 ASSUMPTIONS = [
     "independence is decided by the engine's heap primitives: sym_heap_disjoint walks every pointer cell reachable from each NifFile object (exact, because the engine knows which bytes are pointers) and sym_snapshot/sym_unchanged compares every reachable byte of the source before and after editing the copy",
@@ -25,7 +25,7 @@ MODELS_Q = [(SSE, LEGACYSHAPE | EXTRA), (FO4, LEGACYSHAPE), (OB, SKIN | COLL), (
 def jobs(tier, seed):
     J = []
     bud = 120 if tier == "quick" else 600
-    models = MODELS_Q if tier == "quick" else MODELS_Q + [(v, f) for v in range(6) for f in (0, SKIN | SYMPOS, EXTRA | CTRL | LOOSE | CHILDNODE | SHAPE2)]
+    models = MODELS_Q if tier == "quick" else MODELS_Q + [(v, f) for v in range(6) for f in (0, SKIN | BONETYPE, EXTRA | CTRL | LOOSE | CHILDNODE | SHAPE2)]
     for ver, feat in models:
         for edit in range(5):
             for order in (0, 1):
